@@ -84,12 +84,14 @@ pub(crate) fn valid_ident() -> &'static Regex {
     VALID_IDENT.get_or_init(|| {
         // One of:
         // - `*`
-        // - An ident starting with `a-z_` and containing other characters `a-z0-9_\$`
-        //   (`$` may not come first: SQLite and PostgreSQL read `$a` as a parameter)
+        // - An ident starting with `a-z_` and containing other characters `a-z0-9_`
+        //   (no `$`: SQLite and PostgreSQL read `$a` as a parameter, the SQL
+        //   formatter reads the `$b` of `a$b` as a placeholder and splits the
+        //   name, and BigQuery and ClickHouse do not allow it in a bare name)
         //
         // We could replace this with pomsky (regex<>pomsky : sql<>prql)
-        // ^ ('*' | [ascii_lower '_$'] [ascii_lower ascii_digit '_$']* ) $
-        Regex::new(r"^((\*)|(^[a-z_][a-z0-9_\$]*))$").unwrap()
+        // ^ ('*' | [ascii_lower '_'] [ascii_lower ascii_digit '_']* ) $
+        Regex::new(r"^((\*)|(^[a-z_][a-z0-9_]*))$").unwrap()
     })
 }
 
